@@ -345,19 +345,66 @@ def part_parallel(run, be, count):
     run.oblige("correspondence:parallel_helpers", model_ok, "correspondence")
 
 
+
+# ------------------------------------------------------------------ repeated execution (collapse) of one circuit object
+def part_repeated_sharing(run, be, count):
+    """circuits with a collapsing measurement are executed shot by shot; every execution resets and
+    re-registers the samples on the circuit's measurement gates.  The views of an earlier result
+    must still be its own samples after a later execution (Coq oracle: explainsb)."""
+    items, meta = [], []
+    for i in range(count):
+        crng = random.Random(f"{run.seed}:repshare:{i}")
+        n = crng.randint(1, 3)
+        c, regs, cq = c03.repeated_circuit(crng, n)
+        be.set_seed(crng.randrange(2 ** 31))
+        results, S = [], []
+        info = {"part": "repeated_sharing", "case": i, "n": n, "collapse": f"M({','.join(map(str, cq))}, collapse=True)",
+                "registers": regs, "executions": []}
+        for _ in range(2):
+            ints, j = dyadic_state(crng, n)
+            ns = crng.randint(1, 5)
+            r = c(initial_state=np.array(ints, dtype=complex) / 2 ** j, nshots=ns)
+            results.append(r)
+            S.append([int(x) for x in np.asarray(r.samples(binary=False)).tolist()])
+            info["executions"].append({"state_times_2^j": [str(a) for a in ints], "j": j, "nshots": ns, "samples": S[-1]})
+        run.case({"repeated_sharing": info}, S[0] != S[1])
+        if i == 0:
+            run.sample(info)
+        cfg = f"(mkcfg {n}%nat {c03.nat_list_list(regs)})"
+        for t, r in enumerate(results):
+            for label, op, out in c03.view_terms(r, c.measurements, regs, "repshare", run, info, report_shape=False):
+                items.append((f"repshare:case{i}:r{t}:{label}", f"explainsb {cfg} (@nil Z) {c03.nat_list(S[t])} ({op}) ({out})"))
+                meta.append((f"repshare:case{i}:r{t}:{label}", info, t, label))
+    res, _ = run.coq_bools("repshare.v", c03.HEADER, items, timeout=600)
+    if res is None:
+        run.find("repshare:coq-failed", "generated file did not compile", {}, concrete=False)
+        return
+    bad = 0
+    for label, info, t, view in meta:
+        if not res[label]:
+            bad += 1
+            which = "earlier" if t == 0 else "later"
+            run.find(f"{SHARED_KEY}:repeated_execution:{which}_result:{view.split(':')[0]}_registers={view.split(':')[2]}",
+                     "after another shot-by-shot execution of the same circuit object a view of the result is no longer its own samples "
+                     "(the per-register samples live on the circuit's measurement gates)", dict(info, result=t, view=view))
+    run.notes["repeated_execution_views_not_own"] = bad
+    if not bad:
+        run.oblige("test:repeated_execution_results_standalone", True, "test")
+
 # ------------------------------------------------------------------ main
 RULE = ("histories: n<=3, registers = random partition of a random qubit subset in permuted order; 1..3 executions of one circuit object "
         "with different dyadic states (30% basis states) and 1..8 shots at random positions among <=10 operations; accessors "
         "samples/frequencies x binary x registers, probabilities(random ordered qubits), circuit.final_state on random results; "
         "non-trivial = >=2 executions and >=1 sampling accessor.  witness: the history of results_standalone_refuted and two variants, "
         "replayed on the real code.  seed: same script twice on fresh circuits and once more on the same circuit.  parallel: "
-        "parallel_execution / parallel_circuits_execution / parallel_parametrized_execution with processes 1..3, 2..4 tasks, under a 90 s timeout.")
+        "parallel_execution / parallel_circuits_execution / parallel_parametrized_execution with processes 1..3, 2..4 tasks, under a 90 s timeout.  "
+        "repeated: two shot-by-shot executions (collapsing measurement) of one circuit object, all views of both results judged against their own samples.")
 
 
 def budgets(tier):
     if tier == "thorough":
-        return {"hist": 3000, "seed": 200, "par": 90}
-    return {"hist": 300, "seed": 40, "par": 18}
+        return {"hist": 3000, "seed": 200, "par": 90, "rep": 150}
+    return {"hist": 300, "seed": 40, "par": 18, "rep": 30}
 
 
 def main(run):
@@ -375,6 +422,8 @@ def main(run):
     part_histories(run, be, b["hist"])
     part_seed(run, be, b["seed"])
     part_parallel(run, be, b["par"])
+    part_repeated_sharing(run, be, b["rep"])
+    run.refuted = list(dict.fromkeys(run.refuted))
     return run.finish(rule=RULE)
 
 
@@ -394,4 +443,6 @@ def replay(run, data):
         part_seed(run, be, rp["case"] + 1)
     elif part == "parallel":
         part_parallel(run, be, rp["case"] + 1)
+    elif part == "repeated_sharing":
+        part_repeated_sharing(run, be, rp["case"] + 1)
     return run.finish(rule="replay of one recorded case")
